@@ -1,7 +1,7 @@
 \* impl -> spec: recorded runs of the real detectors (TRACE_FILE) replayed through Step.
 \* The constants only bound Step's guard; inputs come from the traces.
 SPECIFICATION TraceSpec
-CONSTANTS Kinds = {"standard", "sliding", "fading"} Windows = {1} NAlpha = 1
+CONSTANTS Kinds = {"standard", "sliding", "fading"} Windows = {1} NAlpha = 1 Bank = FALSE
           NisVals = {0} NisDen = 4 Dims = {1}
           MaxLen = 50 FadeLen = 50 Trim = FALSE KeepHist = FALSE
 CONSTANT Deltas <- DeltasQuick
